@@ -197,3 +197,94 @@ Example C04_nonvacuous_kept :
 Proof.
   split; [repeat constructor; eexists; split; reflexivity|]. vm_compute. repeat split.
 Qed.
+
+(* ================================================================== screen level (model/MultiScreen.v) *)
+(** C04_kept on the terminal, final phase = finishing calls and drops (hence `_partial`; what is
+    missing: docs/C04.md).  Scope as C02_screen: Top alignment, no I/O faults, MultiProgress on a
+    terminal, proviso [FitsAll]; [h1 ++ h2] a possible history from an empty MultiProgress
+    ([init_ok], [MultiSpec.hist_ok]: needed for the NoDup / slot invariants of C02_order).
+    [h1] is ANY history after which the live region is [Clean] (its rows are exactly the stored
+    lines of the members in the ordering - true after every forced member draw / remove,
+    C02_live_forced, and trivially for the empty MultiProgress); [h2] consists of finish* /
+    abandon* / finish_using_style / force-draw calls and drops ([kept_op]) - any bars, any order,
+    any number, any times, finished or unfinished bars, every ProgressFinish (an unfinished bar
+    is finished by its drop; finish_and_clear stores no line).  Then, on the terminal model:
+    - the log rows and the rows kept before stay untouched (no println/clear/suspend in h2);
+    - the kept rows grow by exactly the stored lines - as they were when the member was reaped,
+      i.e. after its finishing draw - of every member reaped in h2 ([reaped_hist]: by mark_zombie
+      at the head of the ordering, or as a head zombie by a later finishing draw), in reap order,
+      which is ordering order (reaping is from the head only);
+    - the members still in the ordering (dropped behind an undropped one, or not dropped) follow
+      with their stored lines in ordering order: the region is [Clean] again;
+    so the screen ends with [pre ++ log ++ rows kept before ++ frames of the members reaped in h2
+    ++ frames of the members still in the ordering], nothing erased, nothing duplicated. *)
+From IndModel Require Import MultiScreen.
+From IndProofs Require Import MultiScreenProofs.
+
+Theorem C04_kept_screen_partial : forall (W H : N), 1 <= W -> 1 <= H ->
+  forall (pre : list (list N)) (s0 : sys) (t0 : term) (h1 h2 : list (N * op)),
+  init_ok s0 -> ms_initial s0 -> ready (N.to_nat W) (N.to_nat H) pre t0 ->
+  MultiSpec.hist_ok W H nofaults s0 (h1 ++ h2) -> FitsAll W H s0 (h1 ++ h2) ->
+  Forall (fun x => kept_op (snd x) = true) h2 ->
+  let st1 := ms_run W H (s0, mghost0, t0) h1 in
+  let s1 := fst (fst st1) in let g1 := snd (fst st1) in
+  Clean W (s_mp s1) g1 ->
+  let st := ms_run W H (s0, mghost0, t0) (h1 ++ h2) in
+  let s := fst (fst st) in let g := snd (fst st) in let t := snd st in
+  Clean W (s_mp s) g
+  /\ mg_log g = hist_log W H s0 h1
+  /\ mg_kept g = mg_kept g1 ++ wrap (N.to_nat W) (map lt (reaped_hist W H s1 h2))
+  /\ exists k, screen (N.to_nat W) t
+       = map (pad (N.to_nat W))
+             (pre ++ wrap (N.to_nat W) (hist_log W H s0 h1) ++ mg_kept g1
+                  ++ wrap (N.to_nat W) (map lt (reaped_hist W H s1 h2 ++ bar_lines_of (s_mp s))))
+         ++ repeat (repeat SP (N.to_nat W)) k.
+Proof. exact c04_kept. Qed.
+Print Assumptions C04_kept_screen_partial.
+
+(* ------------------------------------------------------------------ non-vacuity (screen level) *)
+(** three members A B C; h1: adds, updates, a println; h2: B finishes and is dropped behind the
+    head, C is dropped UNFINISHED (its drop finishes it with FWithMessage "ok"), A abandons and
+    is dropped at the head (reaped at once; the next... there is no next draw: B and C stay in
+    the ordering as zombies).  All three final frames are on the screen in logical order. *)
+Definition exk_s0 : sys :=
+  mksys [new_bar (Some 5) FAndLeave [PLit [65]; PPos] THidden 0;
+         new_bar (Some 7) FAndLeave [PLit [66]; PPos] THidden 0;
+         new_bar (Some 9) (FWithMessage [111;107]) [PLit [67]; PPos; PMsg] THidden 0]
+        (new_ms (TTerm (new_ttarget (Some 20) 0))) 0.
+Definition exk_h1 : list (N * op) :=
+  [(0, OInsert BEnd 0); (0, OInsert BEnd 1); (0, OInsert BEnd 2);
+   (1000000, OInc 0 1); (2000000, OInc 1 2); (3000000, OInc 2 3); (100000000, OMPrintln [108]);
+   (200000000, OForceDraw 2)].
+Definition exk_h2 : list (N * op) :=
+  [(300000000, OFinish 1 FAndLeave); (300000001, ODrop 1); (300000002, ODrop 2);
+   (300000003, OFinish 0 FAbandon); (300000004, ODrop 0)].
+
+Example C04_kept_screen_hypotheses_satisfiable :
+  init_ok exk_s0 /\ ms_initial exk_s0 /\ ready 8 10 [] term_init
+  /\ MultiSpec.hist_ok 8 10 nofaults exk_s0 (exk_h1 ++ exk_h2) /\ FitsAll 8 10 exk_s0 (exk_h1 ++ exk_h2)
+  /\ Forall (fun x => kept_op (snd x) = true) exk_h2
+  /\ (let st1 := ms_run 8 10 (exk_s0, mghost0, term_init) exk_h1 in
+      Clean 8 (s_mp (fst (fst st1))) (snd (fst st1))).
+Proof.
+  assert (Hno : no_own_term exk_s0).
+  { intros b. unfold get_bar, nthN. destruct (N.to_nat b) as [|[|[|[|n]]]]; exact I. }
+  split.
+  { repeat split. intros b. unfold is_member, get_bar, nthN.
+    destruct (N.to_nat b) as [|[|[|[|n]]]]; reflexivity. }
+  split.
+  { split; [exact Hno|]. eexists. repeat split. intros i ls Hi. unfold nthN in Hi. cbn in Hi.
+    destruct (N.to_nat i); discriminate Hi. }
+  split; [exact (ready_start 8 10 [] 0 0 ltac:(lia))|].
+  split; [vm_compute; repeat split|]. split; [vm_compute; repeat (split || intro)|].
+  split; [repeat constructor|]. vm_compute. reflexivity.
+Qed.
+
+Example C04_kept_screen_example :
+  let st1 := ms_run 8 10 (exk_s0, mghost0, term_init) exk_h1 in
+  let st := ms_run 8 10 (exk_s0, mghost0, term_init) (exk_h1 ++ exk_h2) in
+  reaped_hist 8 10 (fst (fst st1)) exk_h2 = [mkline KBar [65;49]]
+  /\ bar_lines_of (s_mp (fst (fst st))) = [mkline KBar [66;55]; mkline KBar [67;57;111;107]]
+  /\ map (alive (fst (fst st))) [0;1;2] = [false; false; false]
+  /\ screen 8 (snd st) = map (pad 8) [[108]; [65;49]; [66;55]; [67;57;111;107]].
+Proof. vm_compute. repeat split. Qed.
